@@ -5,8 +5,10 @@
   EVERY point ρ of the compiled inputs, the values of the compiled tree are the values the value-level evaluator
   `denoteV` (BartiqModel/Denote.lean: no substitution anywhere; names are looked up per scope, children's values
   flow along links, wires and `child.resource` references) computes from the source.
-  PARTIAL (named so): proved for hierarchies without repetition wrappers and without user-written sum_over/prod_over;
-  repetitions are covered by C07's theorems, by the correspondence and by the oracle.  That the value-level evaluator on
+  PARTIAL (named so): `plainB` admits repetition wrappers with constant, arithmetic and geometric sequences (the wrapper's
+  resources are then the closed forms of `get_sum`/`get_prod` over the child's VALUE, which C07_model_* equate with the unrolled
+  sums); it excludes closed-form and custom sequences and user-written sum_over/prod_over (expressions that bind an iterator).
+  Those are covered by the correspondence and by the oracle.  That the value-level evaluator on
   the preprocessed routine agrees with the declarative bottom-up reading of the SOURCE document (preprocessing stages,
   child order) is checked by differential execution (driver command `denote` vs harness/refsem.py), not proved.
 -/
@@ -103,5 +105,10 @@ theorem C01_unlinked_becomes_path_input (r : Routine) (c : Routine) (p : String)
         · left; exact h
       · right; exact hmono acc x.1 x.2 k h
   exact hkeys _ _ _ [] (Or.inl hmem)
+
+-- non-vacuity: a repetition wrapper (arithmetic sequence, symbolic count) around a leaf is within `plainB`
+example : plainB ⟨"w", none, ["N"], [], [], [], [⟨"T", .additive, .sym "core.T"⟩], [],
+    some ⟨.sym "N", .arithmetic (.num 1) (.sym "N")⟩, [],
+    [⟨"core", none, [], [], [], [], [⟨"T", .additive, .num 3⟩], [], none, [], [], []⟩], ["core"]⟩ = true := by decide
 
 end Bartiq
